@@ -96,9 +96,9 @@ MthP(verb, ps, ret, errs, resp) ==
     [file |-> "", verb |-> verb, route |-> RouteFor(ps, 1), uniq |-> TRUE, hidden |-> FALSE, deprecated |-> FALSE, sec |-> <<>>,
      sig |-> SigOf(ps), anns |-> AnnsOf(ps, 1), ret |-> ret, errors |-> errs, response |-> resp, desc |-> ""]
 \* every single parameter kind exhaustively (one method per project, both dialects through the main + alt runs)
-CfgsC06one == { Cfg("gin", "3.0.0", FALSE, NoSec, <<"s1">>) }
+CfgsC06one == { Cfg("gin", "3.0.0", FALSE, NoSec, <<"s1", "oa1">>) }        \* (oa1: an oauth2 scheme with two flows)
 MethodsC06single == { MthP("POST", <<a>>, <<"p1.Item", "error">>, <<E(500)>>, 0) : a \in ParamsC06 }
-CfgsC06 == { Cfg("gin", v, FALSE, NoSec, <<"s1">>) : v \in {"3.0.0", "3.1.0"} }
+CfgsC06 == { Cfg("gin", v, FALSE, NoSec, <<"s1", "oa1">>) : v \in {"3.0.0", "3.1.0"} }
 CtrlsC06 == { Ctl("p1", "f1", "AController", "/a", "A", <<>>) }
 MethodsC06 == { MthP(verb, ps, ret, errs, resp) : verb \in {"POST"}, ps \in ParamLists, ret \in RetShapes,
                                                     errs \in {<<>>, <<E(500)>>, <<E(400), E(500)>>}, resp \in {0, 201} }
